@@ -4,10 +4,12 @@ import (
 	"bytes"
 	"fmt"
 	"io"
+	"reflect"
 	"testing"
 
 	"github.com/bluenviron/gomavlib/v3/pkg/dialect"
 	"github.com/bluenviron/gomavlib/v3/pkg/frame"
+	"github.com/bluenviron/gomavlib/v3/pkg/message"
 	"pgregory.net/rapid"
 
 	"verifharness/evid"
@@ -236,7 +238,7 @@ func TestC08Hops(t *testing.T) {
 // queues meanwhile); what is forwarded must still be what was received.
 func TestC08BatchForward(t *testing.T) {
 	rec := evid.New(t, "C08", "2..8 frames (raw with arbitrary checksum/signature, or dialect messages) arrive in one stream in generated chunkings and are ALL read before any of them is written to the next link (as happens when frames wait in event and write queues); without a dialect the forwarded stream must be byte-identical, with a dialect every forwarded frame must carry a reference-valid checksum and decode to the same message; non-trivial = stream longer than the reader's 512-byte window; distinct by hash of the stream")
-	rec.Require("longer-than-window", "with-dialect", "without-dialect")
+	rec.Require("longer-than-window", "with-dialect", "without-dialect", "repeated-message+application-edits-a-kept-frame")
 	dpool := pool(t)
 	evid.Check(t, rec, evid.N(8000, 40000), func(t *rapid.T) {
 		drawBufSize(t)
@@ -246,10 +248,18 @@ func TestC08BatchForward(t *testing.T) {
 		var in []byte
 		var frames []ref.Frame
 		var lays []*ref.Layout
+		repeats := 0
 		for i := 0; i < n; i++ {
 			var f ref.Frame
 			var lay *ref.Layout
-			if rapid.Bool().Draw(t, "rawframe") {
+			if i > 0 && lays[i-1] != nil && !frames[i-1].Signed() && rapid.IntRange(0, 3).Draw(t, "repeat_previous") == 0 {
+				// the sender repeats itself (a command sent twice, a status that has not changed): the same
+				// message again, under the next sequence number
+				f, lay = frames[i-1], lays[i-1]
+				f.Seq++
+				f.Checksum = f.ChecksumFor(lay.CRCExtra)
+				repeats++
+			} else if rapid.Bool().Draw(t, "rawframe") {
 				f = gen.RawFrame(t, gen.FrameOpts{})
 				for di.layouts[f.ID] != nil {
 					f.ID = (f.ID + 1) & 0xFF
@@ -283,13 +293,31 @@ func TestC08BatchForward(t *testing.T) {
 		if err := fw.Initialize(); err != nil {
 			t.Fatalf("BROKEN: %v", err)
 		}
+		// the application keeps some frames for itself and works on their messages (they are its own now); the
+		// others go on as they came
+		kept := map[int]bool{}
+		if withDialect {
+			for i, r := range res {
+				if r.err == nil && lays[i] != nil && rapid.IntRange(0, 3).Draw(t, "application_keeps_and_edits") == 0 {
+					if _, raw := r.fr.GetMessage().(*message.MessageRaw); !raw {
+						kept[i] = true
+						reflect.ValueOf(r.fr.GetMessage()).Elem().Set(reflect.ValueOf(gen.Value(t, lays[i])).Elem())
+					}
+				}
+			}
+		}
+		var fwdIdx []int
 		for i, r := range res {
 			if r.err != nil {
 				t.Fatalf("frame %d rejected: %v", i, r.err)
 			}
+			if kept[i] {
+				continue
+			}
 			if err := fw.Write(r.fr); err != nil {
 				t.Fatalf("forwarding frame %d failed: %v", i, err)
 			}
+			fwdIdx = append(fwdIdx, i)
 		}
 		out := w.all()
 		if !withDialect {
@@ -298,7 +326,8 @@ func TestC08BatchForward(t *testing.T) {
 				t.Fatalf("%d frames read (chunks %v) and then forwarded without a dialect: the bytes differ\n in  %x\n out %x", n, sizes, in, out)
 			}
 		} else {
-			for i, b := range w.calls {
+			for k, b := range w.calls {
+				i := fwdIdx[k]
 				p, nb, err := ref.Parse(b)
 				if err != nil || nb != len(b) {
 					t.Fatalf("forwarded frame %d is not one whole frame", i)
@@ -315,7 +344,8 @@ func TestC08BatchForward(t *testing.T) {
 				got, derr := lays[i].Decode(p.Payload, p.V2)
 				want, _ := lays[i].Decode(frames[i].Payload, frames[i].V2)
 				if derr != nil || !ref.EqualMsg(got, want) {
-					t.Fatalf("forwarded frame %d decodes to another message", i)
+					evid.ReplayNote("C08", "TestC08BatchForward", fmt.Sprintf("in  %x\nframe %d forwarded as %x\nframes the application kept and edited: %v", in, i, b, kept))
+					t.Fatalf("forwarded frame %d (%s) decodes to %+v, it arrived as %+v (frames the application kept for itself and edited, not forwarded: %v)", i, lays[i].MsgName, got, want, kept)
 				}
 			}
 		}
@@ -325,6 +355,9 @@ func TestC08BatchForward(t *testing.T) {
 		}
 		if len(in) > 512 {
 			cls = append(cls, "longer-than-window")
+		}
+		if repeats > 0 && len(kept) > 0 {
+			cls = append(cls, "repeated-message+application-edits-a-kept-frame")
 		}
 		rec.Case(len(in) > 512, evid.Hash(in, []byte(fmt.Sprint(sizes, withDialect))), cls...)
 		if len(in) > 512 && rec.WantSample("batch") {
